@@ -429,6 +429,9 @@ func (g *gctx) insertMember(n *node) bool {
 		return false
 	}
 	i := g.r.Intn(len(m.kids) + 1)
+	if g.r.Intn(3) == 0 {
+		i = len(m.kids)
+	}
 	k := g.freshMember(m)
 	m.kids = append(m.kids[:i], append([]*node{k}, m.kids[i:]...)...)
 	return true
@@ -440,6 +443,9 @@ func (g *gctx) deleteMember(n *node) bool {
 		return false
 	}
 	i := g.r.Intn(len(m.kids))
+	if g.r.Bool() { // the shorter list is then a PREFIX of the longer one (re-slice layout in impl)
+		i = len(m.kids) - 1
+	}
 	m.kids = append(m.kids[:i:i], m.kids[i+1:]...)
 	return true
 }
@@ -450,6 +456,9 @@ func (g *gctx) insertVertex(n *node) bool {
 		return false
 	}
 	i := g.r.Intn(len(m.pts) + 1)
+	if g.r.Intn(3) == 0 {
+		i = len(m.pts)
+	}
 	if closed(m) {
 		i = g.r.Range(1, len(m.pts)-1)
 	}
@@ -466,6 +475,9 @@ func (g *gctx) deleteVertex(n *node) bool {
 		return false
 	}
 	i := g.r.Intn(len(m.pts))
+	if g.r.Bool() {
+		i = len(m.pts) - 1 // prefix of the original
+	}
 	if closed(m) {
 		i = g.r.Range(1, len(m.pts)-2)
 	}
@@ -578,6 +590,122 @@ func (g *gctx) duplicateMember(n *node) bool {
 	return true
 }
 
+// ---- rings that visit a vertex twice, every pair of start vertices ----------------------------
+
+func closeRing(c []geom.Point, k int) *node {
+	r := append(append([]geom.Point{}, c[k:]...), c[:k]...)
+	return &node{kind: kRing, pts: append(r, r[0])}
+}
+
+func (g *gctx) pinchedCases(out *bufio.Writer) {
+	v := g.lattice(6)
+	P := v[0]
+	P2 := P
+	if g.r.Bool() { // second visit within tol/4 of the first instead of bit-identical
+		P2 = geom.Point{X: P.X + g.tol/4, Y: P.Y - g.tol/4}
+	}
+	var cyc []geom.Point
+	switch g.r.Intn(3) {
+	case 0:
+		cyc = []geom.Point{P, v[1], v[2], P2, v[3], v[4]} // two triangles sharing P
+	case 1:
+		cyc = []geom.Point{P, v[1], P2, v[2], P, v[3]} // three visits
+	default:
+		cyc = []geom.Point{v[1], P, v[2], v[3], v[4], P2, v[5]}
+	}
+	pert := append([]geom.Point{}, cyc...)
+	if g.r.Bool() {
+		for i := range pert {
+			pert[i].X += g.small() / 2
+			pert[i].Y += g.small() / 2
+		}
+	}
+	disp := append([]geom.Point{}, pert...)
+	di := g.r.Intn(len(disp))
+	for disp[di] == P || disp[di] == P2 || (di < len(cyc) && (cyc[di] == P || cyc[di] == P2)) {
+		di = (di + 1) % len(disp)
+	}
+	disp[di].Y += 3 * g.tol
+	other, other2 := g.ring(), g.ring()
+	for i := range cyc {
+		for j := range cyc {
+			a, b := closeRing(cyc, i), closeRing(pert, j)
+			emit(out, "pinch:T", g.tol, (&node{kind: kPG, kids: []*node{a}}).geom(), (&node{kind: kPG, kids: []*node{b}}).geom())
+			if (i+j)%3 == 0 { // as a hole next to other rings, and inside a multi-polygon / collection
+				pa := &node{kind: kPG, kids: []*node{other.clone(), a}}
+				pb := &node{kind: kPG, kids: []*node{b, other.clone()}}
+				emit(out, "pinch:T", g.tol, pa.geom(), pb.geom())
+				q := &node{kind: kPG, kids: []*node{other2.clone()}}
+				emit(out, "pinch:T", g.tol, (&node{kind: kMPG, kids: []*node{q, pa}}).geom(), (&node{kind: kMPG, kids: []*node{pb, q.clone()}}).geom())
+				emit(out, "pinch:T", g.tol, (&node{kind: kGC, kids: []*node{pa, q}}).geom(), (&node{kind: kGC, kids: []*node{q.clone(), pb}}).geom())
+			}
+			if (i+2*j)%5 == 0 {
+				c := closeRing(disp, j)
+				emit(out, "pinchd:F", g.tol, (&node{kind: kPG, kids: []*node{a}}).geom(), (&node{kind: kPG, kids: []*node{c}}).geom())
+			}
+		}
+	}
+}
+
+// ---- member / vertex counts around 64, 128, 129, 1024, 1025 ----------------------------------
+
+// n distinct vertices (distinct X) on a fresh row of cells
+func (g *gctx) bigPts(n int) []geom.Point {
+	row := g.cell/64 + 1
+	g.cell = (row + 2) * 64
+	x0, y0 := g.ox, g.oy+float64(row)*256*g.tol
+	ps := make([]geom.Point, n)
+	for t := range ps {
+		ps[t] = geom.Point{X: x0 + float64(t+1)*16*g.tol, Y: y0 + float64((t*7)%13+1)*16*g.tol}
+	}
+	return ps
+}
+
+func (g *gctx) bigCases(out *bufio.Writer, huge bool) {
+	emitAll := func(a *node) {
+		ag := a.geom()
+		do := func(tag string, f func(b *node) bool) {
+			g.perturbed = false
+			b := a.clone()
+			if f(b) {
+				emit(out, tag, g.tol, ag, b.geom())
+			}
+		}
+		do("same:T", func(b *node) bool { return true })
+		do("combo:T", func(b *node) bool { g.permute(b); g.rotate(b); g.perturb(b); return true })
+		do("displace:F", g.displace)
+		do("vdelete:F", g.deleteVertex)
+		do("delete:F", g.deleteMember)
+		do("insert:F", g.insertMember)
+	}
+	ns := []int{64, 128, 129}
+	for _, n := range ns {
+		emitAll(&node{kind: kLS, pts: g.bigPts(n)})
+		emitAll(&node{kind: kMP, pts: g.bigPts(n)})
+		r := g.bigPts(n)
+		emitAll(&node{kind: kPG, kids: []*node{{kind: kRing, pts: append(r, r[0])}, g.ring()}})
+		mls, pg, gc := &node{kind: kMLS}, &node{kind: kPG}, &node{kind: kGC}
+		for i := 0; i < n; i++ {
+			mls.kids = append(mls.kids, g.line(kLine))
+			pg.kids = append(pg.kids, &node{kind: kRing, pts: func() []geom.Point { c := g.lattice(3); return append(c, c[0]) }()})
+			gc.kids = append(gc.kids, &node{kind: kP, pts: g.lattice(1)})
+		}
+		emitAll(mls)
+		emitAll(pg)
+		emitAll(gc)
+	}
+	for _, n := range []int{1024, 1025, 2048} {
+		emitAll(&node{kind: kLS, pts: g.bigPts(n)})
+		emitAll(&node{kind: kMP, pts: g.bigPts(n)})
+	}
+	if huge {
+		r := g.bigPts(1025)
+		emitAll(&node{kind: kPG, kids: []*node{{kind: kRing, pts: append(r, r[0])}}})
+		// (member lists stop at 129: the specification's backtracking search copies the remaining
+		// members at every level, O(n^3) for n members)
+	}
+}
+
 // ---- emitting --------------------------------------------------------------------------
 
 func emit(out *bufio.Writer, tag string, tol float64, a, b geom.Geom) {
@@ -661,7 +789,8 @@ func gen(seed uint64, tier string) {
 	if tier == "thorough" {
 		n = 40000
 	}
-	dy := []float64{1, 0.5, 0.25, 0.0625, 0.0078125, 0.0009765625, 4}
+	dy := []float64{1, 0.5, 0.25, 0.0625, 0.0078125, 0.0009765625, 4,
+		1.0 / (1 << 20), 1.0 / (1 << 30), 1 << 20, 1 << 30} // dyadic scaling keeps a-b exact
 	nd := []float64{0.1, 0.01, 1e-9, 3}
 	for it := 0; it < n; it++ {
 		g := &gctx{r: r, dyadic: it%5 != 4}
@@ -734,6 +863,12 @@ func gen(seed uint64, tier string) {
 			emit(out, "edge:?", g.tol, geom.MultiPolygon{a1, b1}, geom.MultiPolygon{b1, a1})
 			emit(out, "edge:?", g.tol, geom.MultiLineString{tiny(), tiny()}, geom.MultiLineString{tiny(), tiny()})
 		}
+		if it%8 == 4 {
+			g.pinchedCases(out)
+		}
+		if (tier != "thorough" && it%625 == 7 || it%2500 == 7) && g.dyadic {
+			g.bigCases(out, tier == "thorough" && it == 7)
+		}
 		// an unrelated geometry (fresh cells) of the same or another type
 		o := g.base(r.Intn(8), 1)
 		emit(out, "other:?", g.tol, ag, o.geom())
@@ -753,7 +888,7 @@ func res(f func() bool) string {
 
 func impl() {
 	vproto.Lines(func(line string, out *bufio.Writer) {
-		var r1, r2 string
+		var r1, r2, lay string
 		pan := vproto.Safe(func() {
 			p := vproto.NewParser(line)
 			p.Next() // sim
@@ -764,11 +899,13 @@ func impl() {
 				panic("missing |")
 			}
 			b := p.Geom()
-			r1 = res(func() bool { return a.Similar(b, tol) })
-			r2 = res(func() bool { return b.Similar(a, tol) })
+			r1, r2, lay = evalAll(a, b, tol)
 		})
 		if pan != "" {
 			r1, r2 = "badline:"+pan, "badline"
+		}
+		if lay != "" {
+			r2 += " " + lay
 		}
 		fmt.Fprintf(out, "%s => %s %s\n", line, r1, r2)
 		out.Flush()
